@@ -467,8 +467,12 @@ where
                     } else if let Some(captures) = RE_DATE.captures(line) {
                         if let Some(date) = captures.get(1) {
                             let nt = asc_parse_date(date.as_str());
-                            if let Ok(nt) = nt {
-                                let nt_us = nt.and_utc().timestamp_micros() as u64;
+                            // a date before 1970 is ignored (like an invalid date)
+                            if let Some(nt_us) = nt
+                                .as_ref()
+                                .ok()
+                                .and_then(|nt| u64::try_from(nt.and_utc().timestamp_micros()).ok())
+                            {
                                 self.date_us = nt_us;
                                 self.first_neg_timestamp_us = 0; // reset here if mult. files get concatenated
                                 if let Some(timestamp_reference_time_us) =
